@@ -92,29 +92,40 @@ fn hex(v: &[u8]) -> String { v.iter().map(|b| format!("{:02x}", b)).collect() }
 
 fn check_utf8(v: &[u8]) {
     use lean_string::LeanString;
-    let a = LeanString::from_utf8(v).map(|s| s.as_str().to_string()).ok();
-    let b = String::from_utf8(v.to_vec()).ok();
-    if a != b {
-        report(format!("MISMATCH from_utf8 {} got={:?} want={:?}", hex(v), a, b));
-    }
-    let al = LeanString::from_utf8_lossy(v);
-    let bl = String::from_utf8_lossy(v);
-    if al.as_str() != &*bl {
-        report(format!("MISMATCH from_utf8_lossy {} got={:?} want={:?}", hex(v), al.as_str(), bl));
+    // compare bytes, not strs: a defective constructor may hand back text that is not UTF-8, and formatting that is UB
+    let r = std::panic::catch_unwind(|| {
+        let a = LeanString::from_utf8(v).map(|s| s.as_bytes().to_vec()).ok();
+        let b = String::from_utf8(v.to_vec()).map(|s| s.into_bytes()).ok();
+        if a != b {
+            report(format!("MISMATCH from_utf8 {} got={} want={}", hex(v), a.map(|x| hex(&x)).unwrap_or("Err".into()), b.map(|x| hex(&x)).unwrap_or("Err".into())));
+        }
+        let al = LeanString::from_utf8_lossy(v);
+        let bl = String::from_utf8_lossy(v);
+        if al.as_bytes() != bl.as_bytes() {
+            report(format!("MISMATCH from_utf8_lossy {} got={} want={}", hex(v), hex(al.as_bytes()), hex(bl.as_bytes())));
+        }
+    });
+    if r.is_err() {
+        report(format!("MISMATCH panic in from_utf8/from_utf8_lossy {}", hex(v)));
     }
 }
 
 fn check_utf16(v: &[u16]) {
     use lean_string::LeanString;
-    let a = LeanString::from_utf16(v).map(|s| s.as_str().to_string()).ok();
-    let b = String::from_utf16(v).ok();
-    if a != b {
-        report(format!("MISMATCH from_utf16 {:04x?} got={:?} want={:?}", v, a, b));
-    }
-    let al = LeanString::from_utf16_lossy(v);
-    let bl = String::from_utf16_lossy(v);
-    if al.as_str() != bl.as_str() {
-        report(format!("MISMATCH from_utf16_lossy {:04x?} got={:?} want={:?}", v, al.as_str(), bl));
+    let r = std::panic::catch_unwind(|| {
+        let a = LeanString::from_utf16(v).map(|s| s.as_bytes().to_vec()).ok();
+        let b = String::from_utf16(v).map(|s| s.into_bytes()).ok();
+        if a != b {
+            report(format!("MISMATCH from_utf16 {:04x?} got={} want={}", v, a.map(|x| hex(&x)).unwrap_or("Err".into()), b.map(|x| hex(&x)).unwrap_or("Err".into())));
+        }
+        let al = LeanString::from_utf16_lossy(v);
+        let bl = String::from_utf16_lossy(v);
+        if al.as_bytes() != bl.as_bytes() {
+            report(format!("MISMATCH from_utf16_lossy {:04x?} got={} want={}", v, hex(al.as_bytes()), hex(bl.as_bytes())));
+        }
+    });
+    if r.is_err() {
+        report(format!("MISMATCH panic in from_utf16/from_utf16_lossy {:04x?}", v));
     }
 }
 
@@ -210,6 +221,30 @@ fn main() {
                 check_utf8(&v);
                 total += 1;
             }
+            // every short sequence as the tail (and as the middle) of long valid text: whole 16-byte blocks of ASCII,
+            // lengths around the inline limit and multiples of 8 / 16 / 32, non-ASCII blocks
+            let prefixes: Vec<Vec<u8>> = {
+                let mut p: Vec<Vec<u8>> = [15usize, 16, 17, 24, 31, 32, 33, 48, 64, 65].iter().map(|&n| (0..n).map(|i| b'a' + (i % 26) as u8).collect()).collect();
+                p.push("é".repeat(8).into_bytes());
+                p.push("0123456789abcde€".as_bytes().to_vec());
+                p.push("水".repeat(11).into_bytes());
+                p
+            };
+            let tail_max = maxlen.min(3);
+            for pre in &prefixes {
+                for len in 1..=tail_max {
+                    let n = (ALPHA.len() as u64).pow(len as u32);
+                    for code in 0..n {
+                        let mut v = pre.clone();
+                        let mut c = code;
+                        for _ in 0..len { v.push(ALPHA[(c % 20) as usize]); c /= 20; }
+                        check_utf8(&v);
+                        v.extend_from_slice(b"ok");
+                        check_utf8(&v);
+                        total += 2;
+                    }
+                }
+            }
             print!("{out}");
             checked = total;
         }
@@ -225,6 +260,20 @@ fn main() {
                     for _ in 0..len { v.push(ALPHA[(c % 8) as usize]); c /= 8; }
                     check_utf16(&v);
                     total += 1;
+                }
+            }
+            // every short sequence after long valid text (lengths around the inline limit in UTF-8 bytes)
+            for plen in [7usize, 8, 9, 15, 16, 17, 32] {
+                let pre: Vec<u16> = (0..plen).map(|i| 0x61 + (i % 26) as u16).collect();
+                for len in 1..=maxlen.min(3) {
+                    let n = (ALPHA.len() as u64).pow(len as u32);
+                    for code in 0..n {
+                        let mut v = pre.clone();
+                        let mut c = code;
+                        for _ in 0..len { v.push(ALPHA[(c % 8) as usize]); c /= 8; }
+                        check_utf16(&v);
+                        total += 1;
+                    }
                 }
             }
             let mut st = 0x9876_5432u64;
